@@ -107,8 +107,7 @@ contract(M + 'IntegerSequence.get_next_point',
                            'and pts(self, ipt(result)))',
                   'least': 'forall(lambda x: implies(pts(self, x) and x > ipt(point), '
                            'result is not None and ipt(result) <= x))'},
-         domain=[  # outside: known findings KF-C16-far-before-start, KF-C16-oneoff-excluded
-             '(not has_step(self)) or ipt(point) >= startv(self) - stepv(self)',
+         domain=[  # outside: known finding KF-C16-oneoff-excluded ("far before the start" was repaired)
              'has_step(self) or not excluded(self, startv(self)) or ipt(point) >= startv(self)'],
          props=['C16'])
 
@@ -130,11 +129,9 @@ contract(M + 'IntegerSequence.get_prev_point',
                            'and pts(self, ipt(result)))',
                   'greatest': 'forall(lambda x: implies(pts(self, x) and x < ipt(point), '
                               'result is not None and ipt(result) >= x))'},
-         domain=[  # "previous point, or None if out of bounds": only asked for points within one
-                   # step of the stop point, and of stepped sequences (one-off: always None)
-             'has_step(self) or ipt(point) <= startv(self)',
-             '(not has_step(self)) or self.p_stop is None '
-             'or ipt(point) <= ipt(self.p_stop) + stepv(self)'],
+         domain=[  # one-off sequences always answer None (known finding); "more than one step past the
+                   # stop point" was repaired
+             'has_step(self) or ipt(point) <= startv(self)'],
          props=['C16'])
 
 contract(M + 'IntegerSequence.get_nearest_prev_point',
@@ -156,11 +153,7 @@ contract(M + 'IntegerSequence.get_nearest_prev_point',
              '(sequence_point is not None and x >= ipt(sequence_point))))',
              'prev_point is None or sequence_point is None or ipt(prev_point) < ipt(sequence_point)',
          ])},
-         domain=[  # inherited from get_prev_point (an on-sequence point far beyond the stop point)
-             '(not has_step(self)) or self.p_stop is None or excluded(self, ipt(point)) '
-             'or (ipt(point) - startv(self)) % stepv(self) != 0 '
-             'or ipt(point) <= ipt(self.p_stop) + stepv(self)'],
-         props=['C16'])
+         props=['C16', 'C31'])
 
 contract(M + 'IntegerSequence.get_first_point',
          sorts=dict(_SEQ, result='opt[IntegerPoint]'), requires=_PRE,
